@@ -124,6 +124,25 @@ CHECKS["C18"] = dict(
     ref="DESIGN.md section 7 C18",
 )
 
+CHECKS["C09"] = dict(
+    module="IDDict",
+    technique="TLA+ model checking (TLC) that the lock-section model of get-or-create refines a linearizable dictionary + trace validation of call/return histories of the real metadata database (free-running goroutines, gated windows, flush/reopen, crash images) against that dictionary",
+    text=("IDDict.tla has two layers: the specification (a name->id dictionary: every call returns the name's id or a "
+          "fresh one; after reopen / recovery a recovered name keeps its id and a new name never gets an id a recovered "
+          "name holds) and an implementation model of index/kv_store.go at lock-section granularity (memory lookup, "
+          "bucket cache / snapshot load, cache add, create under the write lock, prepare-flush, flush). TLC shows every "
+          "interleaving of 2 threads x 2 names x flushes of the implementation model is Stable and Injective, and that "
+          "each of the three repaired mechanisms is necessary (switching one off yields a counterexample). The real "
+          "MetricMetaDatabase is driven by 2-7 free-running goroutines, by scenarios that park a goroutine at the two "
+          "in-function gates while the windows of those counterexamples are played, by sequential histories with "
+          "flush and reopen, and by recovery of the directory image after every file-system operation of a metadata "
+          "flush; every return must be explained by the dictionary specification."),
+    note=("Trusted: TLC, Json module, the harness' call/return recorder (events are ordered by the recorder lock: a "
+          "return is logged after the call returned, a call before it started), the two gate hooks. Free-running "
+          "interleavings are sampled; the gated scenarios are deterministic."),
+    ref="DESIGN.md section 7 C09",
+)
+
 NOT_YET = {
 }
 
